@@ -349,6 +349,12 @@ C10_SYS_RULE = ("sys scenario B (real broker, 2-4 real clients, several bus list
                 "it against every listener's own filters)")
 
 
+C12_CONV_RULE = ("payload interop rests on `convert` (core/src/convert_value.rs), which the connection task applies to every forwarded "
+                 "payload: the conversion lines of the codec harness (all version pairs, valid encodings of both epochs incl. segmented "
+                 "byte strings, mutants, random bytes) against Model/Codec.lean, with the conversion oracles of C13 (value preserved, old "
+                 "peers get only old kinds)")
+
+
 CONNID_RULE = ("allocator of connection ids (real ConnectionIdManager through the verif-hooks feature of aldrin-broker vs. "
                "Model/ConnId.lean): random histories of connects, clones and drops in oldest-first / newest-first / random order; the "
                "numbers handed out and the final `next` / free list must agree; implementation-only oracle: no number is handed out "
@@ -387,6 +393,12 @@ def broker_prop(pid, module):
                                                         extra_args=["B"], rule=C10_SYS_RULE, subdir="-sys")))
         base["trusted"] = list(base["trusted"]) + ["the client library's fan-out of untagged bus events to the listeners of one client "
                                                    "(aldrin/src/bus_listener.rs) is not modelled; it is exercised by sys scenario B only"]
+        return base
+    if pid == "C12":
+        base = broker_prop("C12*", module)
+        base["run"] = combine_runs(("", base["run"]),
+                                   ("conv.", generic_run("codec", {"conv"}, {"C13"}, {"quick": (1200, 4), "thorough": (12000, 14)},
+                                                         canon=codec_canon, corpus="codec.txt", rule=C12_CONV_RULE, subdir="-conv"), "conv "))
         return base
     if pid in ("C09", "C11"):
         base = broker_prop(pid + "*", module)
